@@ -69,6 +69,7 @@ func checkC18(c *Ctx) {
 	c18Refs(c)
 	c18PathMirror(c)
 	c18Bind(c)
+	c18FreshSchema(c)
 }
 
 // ---------------------------------------------------------------- R-terminates
@@ -695,7 +696,7 @@ func c18Bind(c *Ctx) {
 			if call, ok := in.(*ssa.Call); ok {
 				switch ir.CallName(call) {
 				case "encoding/json.Marshal":
-					if ir.Unwrap(call.Call.Args[0]) == ssa.Value(fn.Params[0]) {
+					if _, isMap := ir.Unwrap(call.Call.Args[0]).Type().Underlying().(*types.Map); isMap {
 						m = call
 					}
 				case "encoding/json.Unmarshal":
@@ -709,6 +710,10 @@ func c18Bind(c *Ctx) {
 			c.R.Check(oc == m && ir.Unwrap(u.Call.Args[1]) == ssa.Value(fn.Params[1]), "R-bind", "binder "+fname(fn), c.Pos(u.Pos()),
 				"arguments are bound by Marshal(arguments) -> Unmarshal(into target)",
 				sprintf("%s does not bind by a JSON round trip of the very arguments map into its target", fname(fn)))
+			verbatim := ir.Unwrap(m.Call.Args[0]) == ssa.Value(fn.Params[0])
+			c.R.Check(verbatim, "R-bind", "binder "+fname(fn)+": arguments verbatim", c.Pos(m.Pos()),
+				"the map that is marshalled is the arguments map the caller sent, untouched",
+				sprintf("%s rewrites the arguments before binding them (it marshals %s, not its arguments parameter): what the handler receives is no longer what the caller sent — e.g. a string that happens to spell JSON arrives as an object, or fails to bind", fname(fn), valueKey(ir.Unwrap(m.Call.Args[0]))))
 		}
 	}
 	if binder == nil {
@@ -755,4 +760,65 @@ func c18Bind(c *Ctx) {
 	}
 	c.R.Min("R-bind", 2)
 	c.R.Min("R-raw-schema", 2)
+}
+
+// ---------------------------------------------------------------- R-fresh-schema
+// A generated schema is handed to a tool builder that goes on modifying it (options add properties, mark members
+// required). Each call must therefore get its own object: a function returning a schema must not return one that it
+// obtained from a package-level cache, or two tools built from one Go type share — and corrupt — one schema.
+func c18FreshSchema(c *Ctx) {
+	n := 0
+	for _, fn := range c.P.LibFns {
+		res := fn.Signature.Results()
+		if res.Len() == 0 || !strings.HasSuffix(ir.TypeStr(res.At(0).Type()), "openapi3.Schema") {
+			continue
+		}
+		n++
+		shared := ""
+		var visit func(v ssa.Value, d int)
+		visit = func(v ssa.Value, d int) {
+			if d > 8 || v == nil || shared != "" {
+				return
+			}
+			switch x := v.(type) {
+			case *ssa.TypeAssert:
+				visit(x.X, d+1)
+			case *ssa.Extract:
+				visit(x.Tuple, d+1)
+			case *ssa.Phi:
+				for _, e := range x.Edges {
+					visit(e, d+1)
+				}
+			case *ssa.MakeInterface:
+				visit(x.X, d+1)
+			case *ssa.ChangeType:
+				visit(x.X, d+1)
+			case *ssa.Lookup:
+				if u, ok := x.X.(*ssa.UnOp); ok {
+					if g, ok := u.X.(*ssa.Global); ok {
+						shared = "the package-level map " + g.Name()
+					}
+				}
+			case *ssa.UnOp:
+				if g, ok := x.X.(*ssa.Global); ok {
+					shared = "the package variable " + g.Name()
+				}
+			case *ssa.Call:
+				nm := ir.CallName(x)
+				if nm == "(*sync.Map).Load" || nm == "(*sync.Map).LoadOrStore" {
+					if g, ok := x.Call.Args[0].(*ssa.Global); ok {
+						shared = "the package-level cache " + g.Name()
+					}
+				}
+			}
+		}
+		ir.EachInstr(fn, func(blk *ssa.BasicBlock, _ int, in ssa.Instruction) {
+			if r, ok := in.(*ssa.Return); ok && blk != fn.Recover && len(ir.Results(r)) > 0 {
+				visit(ir.Results(r)[0], 0)
+			}
+		})
+		c.R.Check(shared == "", "R-fresh-schema", "schema returned by "+ir.FuncCanon(fn), c.Pos(fn.Pos()), "a schema object created for this call",
+			sprintf("%s can return a schema taken from %s: every caller receives the same *Schema, so the per-tool changes the builder options apply to it (extra properties, required members) leak into every other tool generated from that type", fname(fn), shared))
+	}
+	c.R.Min("R-fresh-schema", 6)
 }
